@@ -65,18 +65,25 @@ func (m *module) done(data starlark.StringDict, err error) (starlark.StringDict,
 func (m *module) wait(waiter *module) (starlark.StringDict, error) {
 	verifhook.Block("module.wait")
 	defer verifhook.Unblock("module.wait")
-	m.m.Lock()
-	defer m.m.Unlock()
 
 	if waiter != nil {
-		loading := m.loading
-		for loading != nil {
+		// Walk the chain of modules the receiver is (transitively) blocked on. The walk takes
+		// one module's lock at a time; a chain that loops without reaching the waiter is some
+		// other module's cycle to report.
+		seen := map[*module]struct{}{}
+		for loading := m.getLoading(); loading != nil; loading = loading.getLoading() {
 			if loading == waiter {
 				return nil, fmt.Errorf("cyclic dependency on %v", m.label)
 			}
-			loading = m.getLoading()
+			if _, ok := seen[loading]; ok {
+				break
+			}
+			seen[loading] = struct{}{}
 		}
 	}
+
+	m.m.Lock()
+	defer m.m.Unlock()
 
 	for !m.loaded {
 		m.cond.Wait()
